@@ -428,6 +428,24 @@ def loopio(r):
     return s
 
 
+def tailloop(r):
+    """the program's last byte is the `]` of a counted loop that does I/O (nested or not, the counter a
+    constant or an input): a budget that runs out exactly at the final branch leaves the program
+    counter at the end of the text although the run is not over"""
+    n = r.randint(1, 9)
+    pre = r.choice(['', '', ',', '+.', '>+<', ',.'])
+    body = r.choice(['.-', '-.', '.>+<-', '>.+<-', ',.-', '.[-]', '-.>,<'])
+    k = r.below(4)
+    if k == 0:
+        return pre + '+' * n + '[' + body + ']'
+    if k == 1:
+        m = r.randint(1, 4)
+        return pre + '+' * m + '[>' + '+' * n + '[' + body + ']<-]'
+    if k == 2:
+        return pre + ',[' + body + ']'
+    return pre + '+' * n + '[' + body + ']' + r.choice(['', '', ' ', '\n', '.', '+'])
+
+
 def shiftif(r):
     """pointer-moving `if`s (`[ x >^b [-] ]`: the body runs at most once and ends b cells away on the
     cell it clears) as the last thing of a pointer-moving loop body that moves back by the same
@@ -447,7 +465,7 @@ def shiftif(r):
     return s
 
 
-GENS = {"loopio": loopio, "shiftif": shiftif, "ifnest": ifnest, "uniform": uniform, "nestuse": nestuse, "longrun": longrun, "iopressure": iopressure, "squares": squares, "macro": macro, "pressure": pressure, "affine": affine, "bigconst": bigconst,
+GENS = {"tailloop": tailloop, "loopio": loopio, "shiftif": shiftif, "ifnest": ifnest, "uniform": uniform, "nestuse": nestuse, "longrun": longrun, "iopressure": iopressure, "squares": squares, "macro": macro, "pressure": pressure, "affine": affine, "bigconst": bigconst,
         "roam": roam, "diverge": diverge}
 
 
